@@ -240,7 +240,8 @@ Inductive obs :=
 | LClear
 | LDeliver (k : nat) (r : resp)
 | LNotify (s : nat) (x : N) (cur : option N) (tag : N)
-| LUnsubRet (s : nat).
+| LUnsubRet (s : nat)      (* Unsubscribe returned nil (notifications channel closed) *)
+| LUnsubFail (s : nat).    (* Unsubscribe returned an error *)
 
 Record wstate := {
   w_ctr : N;                        (* requestCounter *)
@@ -525,7 +526,7 @@ Definition wstep (w : wstate) (e : wev) : option wstate :=
       | UCall k =>
           match w_cpc w k with
           | CDone _ (COk _ _) => Some (set_upc w s UClosing)
-          | CDone _ _ => Some (add_log (set_upc w s (UDone false)) (LUnsubRet s))
+          | CDone _ _ => Some (add_log (set_upc w s (UDone false)) (LUnsubFail s))
           | _ => None
           end
       | _ => None
